@@ -59,6 +59,39 @@ def check_program(node, rec=None):
                 indexed += 1
         except Violation as v:
             raise Violation(v.sig, f'program: {progs.show(sub)}\n{v.detail}')
+    # "ds[i] equals the i-th ITERATED example" also when the indexing came first and in no particular order: on a
+    # second, fresh build every stage is read by index in a scattered order (a pure function of the program), then
+    # iterated
+    m0 = ev(node)
+    if m0.indexable and m0.sized and not m0.has_raise and not m0.unordered and not m0.int_taint and 2 <= m0.n <= 40:
+        ds2, env2 = progcheck.build_checked(node)
+        for path, sub in sorted(progcheck.subnodes(node), key=lambda t: -len(t[0])):
+            m = ev(sub)
+            if not (m.indexable and m.sized and not m.has_raise and not m.unordered and not m.int_taint and m.n >= 2):
+                continue
+            d = env2.nodes[path]
+            salt = progs.crc(progs.show(sub))
+            order = sorted(range(m.n), key=lambda i: progs.crc((salt, i)))
+            if salt % 2:
+                order = [i - m.n if j % 2 else i for j, i in enumerate(order)]
+            try:
+                for i in order:
+                    v = d[i]
+                    if not observe.same(v, m.vals[i]):
+                        raise Violation(f'index-value|{sub["op"]}', f'program: {progs.show(sub)}\nds[{i}] == {v!r} '
+                                                                    f'(read in the order {order}); expected {m.vals[i]!r}')
+                got, exc, exhausted = observe.take(lambda: d, m.n + 3)
+            except observe.PASS_THROUGH:
+                raise
+            except Violation:
+                raise
+            except BaseException as e:  # noqa
+                raise Violation(f'index-raised|{sub["op"]}', f'program: {progs.show(sub)}\nindexing in the order '
+                                                             f'{order}: {observe.describe_exc(e)}')
+            try:
+                observe.check_stream(got, exc, exhausted, m, sub['op'], 'iter-after-scattered-index')
+            except Violation as v:
+                raise Violation(v.sig, f'program: {progs.show(sub)}\nafter ds[i] in the order {order}:\n{v.detail}')
     if rec is not None:
         m = ev(node)
         cls = progcheck.classes_of(node, m)
